@@ -187,14 +187,33 @@ class Evaluator(object):
             raise AnalysisError('%s: too many arguments' % fdef.name)
         for n, v in zip(params, args):
             env[n] = v
+        if a.vararg:
+            env[a.vararg.arg] = tuple(args[len(params):])
+        used = set()
         for n, d in list(zip(params, defaults))[len(args):]:
             if kwargs and n in kwargs:
                 env[n] = kwargs[n]
+                used.add(n)
             elif d is not None:
                 env[n] = self.expr(d, {})
             else:
                 raise AnalysisError('%s: missing argument %s' % (
                     fdef.name, n))
+        for ka, kd in zip(a.kwonlyargs, a.kw_defaults):
+            if kwargs and ka.arg in kwargs:
+                env[ka.arg] = kwargs[ka.arg]
+                used.add(ka.arg)
+            elif kd is not None:
+                env[ka.arg] = self.expr(kd, {})
+            else:
+                raise AnalysisError('%s: missing argument %s' % (
+                    fdef.name, ka.arg))
+        extra = {k: v for k, v in (kwargs or {}).items() if k not in used}
+        if a.kwarg:
+            env[a.kwarg.arg] = extra
+        elif extra and not any(k in params[:len(args)] for k in extra):
+            raise AnalysisError('%s: unexpected keyword argument %s' % (
+                fdef.name, sorted(extra)))
         saved = self.yielded
         saved_ctx = (self.module, self.clsname)
         ctx = self.context_of.get(id(fdef))
@@ -581,10 +600,8 @@ class Evaluator(object):
                 'match', 'sub', 'search', 'split', 'findall', 'fullmatch',
                 'finditer'):
             return ('regex', base, e.attr)
-        if isinstance(base, str) and e.attr in (
-                'startswith', 'endswith', 'strip', 'join', 'format', 'lower',
-                'upper', 'replace', 'split', 'lstrip', 'rstrip', 'encode',
-                'splitlines', 'isdigit', 'find', 'index', 'count'):
+        if isinstance(base, str) and not e.attr.startswith('_') and \
+                hasattr(base, e.attr):
             return ('pyfunc', getattr(base, e.attr))
         if isinstance(base, bytes) and e.attr in ('decode',):
             return ('pyfunc', getattr(base, e.attr))
@@ -886,7 +903,15 @@ class Evaluator(object):
                 args.extend(list(self.expr(a.value, env)))
             else:
                 args.append(self.expr(a, env))
-        kwargs = {k.arg: self.expr(k.value, env) for k in e.keywords}
+        kwargs = {}
+        for k in e.keywords:
+            if k.arg is None:
+                extra = self.expr(k.value, env)
+                if not isinstance(extra, dict):
+                    self.err(e, '** of a non-dict')
+                kwargs.update(extra)
+            else:
+                kwargs[k.arg] = self.expr(k.value, env)
         if isinstance(f, tuple) and f[0] == 'method':
             ret, ys = self.call(f[1], args, kwargs, self_obj=f[2])
             if is_generator(f[1]):
